@@ -65,3 +65,10 @@ Example c07_nonvacuous :
   read_loop_step hs false =
   ([TVisit 1 1 KRead; TVisit 2 2 KRead; TVisit 1 1 KException; TVisit 2 2 KException; TVisit 3 3 KException], Done).
 Proof. vm_compute. reflexivity. Qed.
+
+(* the exception is first seen by the first exception handler FROM THE HEAD (pipeline order):
+   this is the clause the harness evaluates directly on every observed routing trace *)
+Theorem c07_exception_from_head : forall hs x,
+  PipeCheck.exc_from_head hs (map PipeCheck.oev_of (fst (exc_run (contexts hs) x))) = true.
+Proof. exact exception_first_seen_from_head. Qed.
+Print Assumptions c07_exception_from_head.
